@@ -37,4 +37,11 @@ PlansQuick == {<<None, 0, None>>, <<None, 1, None>>, <<None, 2, None>>, <<0, 2>>
 PlansThorough == {<<None, k, None>> : k \in {0, 1, 2, 3}} \cup
                  {<<a, b, None>> : a \in {0, 1}, b \in {1, 2, 3}} \cup
                  {<<2, 0, 1>>, <<None, None, 1>>}
+
+\* views: the start / end symbols are no token of any base (tokens are 0..3)
+V(s, e, t) == [sos |-> s, eos |-> e, tokens_only |-> t]
+ViewsQuick == {PlainView, V(7, 8, FALSE), V(None, 8, FALSE), V(None, None, TRUE)}
+ViewsThorough == ViewsQuick \cup {V(7, None, FALSE), V(7, 8, TRUE)}
+ViewPlansQuick == PlansQuick
+ViewPlansThorough == {<<None, 1, None>>, <<2, 0, 1>>}
 =============================================================================
